@@ -95,6 +95,9 @@ func blockPos(b *ssa.BasicBlock) token.Pos {
 type modInfo struct {
 	sort      string
 	freshOnly bool
+	whole     bool   // some modification is at an index not known at loop entry
+	hasFresh  bool   // objects allocated inside the loop are written
+	points    []Term // loop-invariant indices at which the variable is modified
 }
 
 // loopEnv builds the evaluation environment for a loop's invariants.
@@ -133,6 +136,28 @@ func (fx *FnExec) frameEnv(st *State, fr *frame) *evalEnv {
 	for _, p := range fr.fn.Params {
 		if t, ok := st.vals[p]; ok {
 			env.vars[p.Name()] = cval{t: t, typ: p.Type(), sort: fx.sortOf(p.Type()), lv: st.lvs[p]}
+		}
+	}
+	// address-taken locals by their source name
+	for _, b := range fr.fn.Blocks {
+		for _, ins := range b.Instrs {
+			al, ok := ins.(*ssa.Alloc)
+			if !ok || al.Comment == "" || al.Comment == "complit" || al.Comment == "varargs" {
+				continue
+			}
+			t, ok := st.vals[al]
+			if !ok {
+				continue
+			}
+			if _, dup := env.vars[al.Comment]; dup {
+				continue
+			}
+			et := al.Type().Underlying().(*types.Pointer).Elem()
+			if lv := st.lvs[al]; lv != nil {
+				env.vars[al.Comment] = cval{t: st.load(lv), typ: et, sort: lv.elemSort}
+			} else {
+				env.vars[al.Comment] = cval{t: t, typ: al.Type(), sort: "Int"}
+			}
 		}
 	}
 	for _, fv := range fr.fn.FreeVars {
@@ -204,10 +229,37 @@ func (fx *FnExec) loopEnter(st *State, fr *frame, h *loopHdr, b, pred *ssa.Basic
 		delete(st.lvs, phi)
 	}
 	allocAtEntry := st.alloc
-	mods := fx.loopMods(fr, h)
+	mods := fx.loopMods(st, fr, h)
 	for _, name := range sortedKeys(mods) {
 		mi := mods[name]
 		old := st.heapGet(name, mi.sort)
+		if !mi.whole && strings.HasPrefix(mi.sort, "(Array ") {
+			// modified only at indices fixed before the loop (and at fresh objects)
+			es := arrayElemSort(mi.sort)
+			cur := old
+			if mi.freshOnly == false || true {
+				// fresh objects allocated in the loop may also be written: they are
+				// beyond allocAtEntry, so give the whole array a new version that
+				// agrees with the point-updated one on pre-existing indices.
+			}
+			seen := map[Term]bool{}
+			for _, pt := range mi.points {
+				if seen[pt] {
+					continue
+				}
+				seen[pt] = true
+				cur = "(store " + cur + " " + pt + " " + fx.freshConst(name+"@looppt", es) + ")"
+			}
+			if mi.hasFresh && arrayIndexSort(mi.sort) == "Int" {
+				nv := fx.freshConst(name+"@loop", mi.sort)
+				st.assume(fmt.Sprintf("(forall ((q.r Int)) (! (=> (<= q.r %s) (= (select %s q.r) (select %s q.r))) :pattern ((select %s q.r))))", allocAtEntry, nv, cur, nv))
+				cur = nv
+			} else if mi.hasFresh {
+				cur = fx.freshConst(name+"@loop", mi.sort)
+			}
+			st.heapSet(name, mi.sort, cur)
+			continue
+		}
 		nv := fx.freshConst(name+"@loop", mi.sort)
 		st.heapSet(name, mi.sort, nv)
 		if mi.freshOnly && arrayIndexSort(mi.sort) == "Int" {
@@ -317,18 +369,134 @@ type modScan struct {
 	mods    map[string]modInfo
 	inLoop  map[ssa.Value]bool // allocation sites executed inside the loop
 	visited map[*ssa.Function]bool
+	st      *State
+	hdr     *loopHdr
+	fr      *frame
+	topFn   *ssa.Function
+	modNames map[string]bool // pass 1 result: names of heap variables modified in the loop
 }
 
-func (ms *modScan) add(name, srt string, fresh bool) {
-	if old, ok := ms.mods[name]; ok {
-		ms.mods[name] = modInfo{sort: srt, freshOnly: old.freshOnly && fresh}
-		return
+// add records a modification. fresh: the written object was allocated inside
+// the loop. point: the (loop-invariant) index written, or "" if unknown.
+func (ms *modScan) addAt(name, srt string, fresh bool, point Term) {
+	mi, ok := ms.mods[name]
+	if !ok {
+		mi = modInfo{sort: srt, freshOnly: true}
 	}
-	ms.mods[name] = modInfo{sort: srt, freshOnly: fresh}
+	mi.sort = srt
+	if fresh {
+		mi.hasFresh = true
+	} else {
+		mi.freshOnly = false
+		if point == "" {
+			mi.whole = true
+		} else {
+			mi.points = append(mi.points, point)
+		}
+	}
+	ms.mods[name] = mi
 }
 
-func (fx *FnExec) loopMods(fr *frame, h *loopHdr) map[string]modInfo {
-	ms := &modScan{fx: fx, mods: map[string]modInfo{}, inLoop: map[ssa.Value]bool{}, visited: map[*ssa.Function]bool{}}
+func (ms *modScan) add(name, srt string, fresh bool) { ms.addAt(name, srt, fresh, "") }
+
+// invariantVal: the term of an SSA value that is fixed before the loop.
+func (ms *modScan) invariantVal(fn *ssa.Function, v ssa.Value) (Term, bool) {
+	if ms.st == nil || fn != ms.topFn {
+		return "", false
+	}
+	switch x := v.(type) {
+	case *ssa.Const, *ssa.Global, *ssa.Function:
+		return ms.st.val(v), true
+	case *ssa.Parameter, *ssa.FreeVar:
+		if t, ok := ms.st.vals[v]; ok {
+			return t, true
+		}
+		return "", false
+	case ssa.Instruction:
+		if ms.hdr.body[x.Block()] {
+			return ms.derivedInvariant(fn, v)
+		}
+		if t, ok := ms.st.vals[v]; ok {
+			return t, true
+		}
+	}
+	return "", false
+}
+
+// derivedInvariant: values computed inside the loop from loop-invariant
+// operands and heap variables the loop does not modify.
+func (ms *modScan) derivedInvariant(fn *ssa.Function, v ssa.Value) (Term, bool) {
+	if ms.modNames == nil {
+		return "", false
+	}
+	fx := ms.fx
+	switch x := v.(type) {
+	case *ssa.UnOp:
+		if x.Op != token.MUL {
+			return "", false
+		}
+		fa, ok := x.X.(*ssa.FieldAddr)
+		if !ok {
+			return "", false
+		}
+		base, ok := ms.invariantVal(fn, fa.X)
+		if !ok {
+			return "", false
+		}
+		if _, nested := ms.st.lvs[fa.X]; nested {
+			return "", false
+		}
+		pt := fa.X.Type().Underlying().(*types.Pointer).Elem()
+		f := pt.Underlying().(*types.Struct).Field(fa.Field)
+		hn := heapNameForField(pt, f.Name())
+		if ms.modNames[hn] {
+			return "", false
+		}
+		return "(select " + ms.st.heapGet(hn, arrOf(fx.sortOf(f.Type()))) + " " + base + ")", true
+	case *ssa.FieldAddr:
+		base, ok := ms.invariantVal(fn, x.X)
+		if !ok {
+			return "", false
+		}
+		pt := x.X.Type().Underlying().(*types.Pointer).Elem()
+		f := pt.Underlying().(*types.Struct).Field(x.Field)
+		return fx.fieldAddrTerm(pt, f.Name(), base), true
+	case *ssa.Field:
+		b, ok := ms.invariantVal(fn, x.X)
+		if !ok {
+			return "", false
+		}
+		si := fx.structInfoOf(x.X.Type())
+		if si == nil || si.opaque {
+			return "", false
+		}
+		return "(" + si.fields[x.Field] + " " + b + ")", true
+	case *ssa.ChangeType:
+		return ms.invariantVal(fn, x.X)
+	case *ssa.ChangeInterface:
+		return ms.invariantVal(fn, x.X)
+	case *ssa.MakeInterface:
+		b, ok := ms.invariantVal(fn, x.X)
+		if !ok {
+			return "", false
+		}
+		return fmt.Sprintf("(mkiface %d %s)", fx.typeID(x.X.Type()), fx.box(fx.sortOf(x.X.Type()), b)), true
+	}
+	return "", false
+}
+
+func (fx *FnExec) loopMods(st *State, fr *frame, h *loopHdr) map[string]modInfo {
+	// pass 1: names only
+	p1 := fx.loopModsPass(nil, fr, h, nil)
+	names := map[string]bool{}
+	for k := range p1 {
+		names[k] = true
+	}
+	return fx.loopModsPass(st, fr, h, names)
+}
+
+func (fx *FnExec) loopModsPass(st *State, fr *frame, h *loopHdr, names map[string]bool) map[string]modInfo {
+	ms := &modScan{fx: fx, mods: map[string]modInfo{}, inLoop: map[ssa.Value]bool{}, visited: map[*ssa.Function]bool{}, st: st, hdr: h, fr: fr, topFn: fr.fn, modNames: names}
 	var blocks []*ssa.BasicBlock
 	for b := range h.body {
 		blocks = append(blocks, b)
@@ -370,7 +538,7 @@ func (ms *modScan) isFreshBase(v ssa.Value) bool {
 	return false
 }
 
-func (ms *modScan) storeTarget(addr ssa.Value) {
+func (ms *modScan) storeTarget(fn *ssa.Function, addr ssa.Value) {
 	fx := ms.fx
 	fresh := ms.isFreshBase(addr)
 	switch a := addr.(type) {
@@ -390,7 +558,13 @@ func (ms *modScan) storeTarget(addr ssa.Value) {
 		}
 		pt := root.X.Type().Underlying().(*types.Pointer).Elem()
 		f := pt.Underlying().(*types.Struct).Field(root.Field)
-		ms.add(heapNameForField(pt, f.Name()), arrOf(fx.sortOf(f.Type())), fresh)
+		point, _ := ms.invariantVal(fn, root.X)
+		if ms.st != nil {
+			if _, nested := ms.st.lvs[root.X]; nested {
+				point = ""
+			}
+		}
+		ms.addAt(heapNameForField(pt, f.Name()), arrOf(fx.sortOf(f.Type())), fresh, point)
 	case *ssa.IndexAddr:
 		var et types.Type
 		switch u := a.X.Type().Underlying().(type) {
@@ -418,7 +592,15 @@ func (ms *modScan) storeTarget(addr ssa.Value) {
 			return
 		}
 		srt := fx.sortOf(et)
-		ms.add("Cell."+sanitize(srt), arrOf(srt), fresh)
+		point := ""
+		if t, ok := ms.invariantVal(fn, addr); ok && ms.st != nil {
+			if lv := ms.st.lvs[addr]; lv != nil && lv.kind == lvHeap && lv.heap == "Cell."+sanitize(srt) {
+				point = lv.idx
+			} else if lv == nil {
+				point = t
+			}
+		}
+		ms.addAt("Cell."+sanitize(srt), arrOf(srt), fresh, point)
 	}
 }
 
@@ -444,7 +626,7 @@ func (ms *modScan) scanInstr(fn *ssa.Function, ins ssa.Instruction, top bool) {
 	fx := ms.fx
 	switch x := ins.(type) {
 	case *ssa.Store:
-		ms.storeTarget(x.Addr)
+		ms.storeTarget(fn, x.Addr)
 	case *ssa.Alloc:
 		et := x.Type().Underlying().(*types.Pointer).Elem()
 		switch u := et.Underlying().(type) {
@@ -526,7 +708,9 @@ func (ms *modScan) scanCall(fn *ssa.Function, cc *ssa.CallCommon, site ssa.Instr
 	tgt := fx.resolveStatic(fn, cc)
 	switch tgt.kind {
 	case ctContract:
-		ms.contractMods(tgt.fc, tgt.fn, false)
+		if !ms.contractModsAt(fn, cc, tgt) {
+			ms.contractMods(tgt.fc, tgt.fn, false)
+		}
 		ms.monitorMods(cc, tgt.key)
 	case ctInline:
 		if ms.visited[tgt.fn] {
@@ -575,7 +759,7 @@ func (ms *modScan) havocArgMods(a ssa.Value) {
 			}
 			return
 		}
-		ms.storeTarget(a)
+		ms.storeTarget(nil, a)
 	case *types.Slice:
 		es := fx.sortOf(u.Elem())
 		ms.add("Mem."+sanitize(es), "(Array Int "+arrOf(es)+")", false)
@@ -587,6 +771,107 @@ func (p *Prog) inModuleType(t types.Type) bool {
 		return p.inModule(n.Obj().Pkg().Path())
 	}
 	return false
+}
+
+// contractModsAt: when every argument of the call is fixed before the loop, the
+// modifies targets can be evaluated at loop entry and become point updates.
+func (ms *modScan) contractModsAt(fn *ssa.Function, cc *ssa.CallCommon, tgt callTarget) (ok bool) {
+	if ms.st == nil || fn != ms.topFn {
+		return false
+	}
+	vals := append([]ssa.Value{}, cc.Args...)
+	switch cc.Value.(type) {
+	case *ssa.Function, *ssa.Builtin:
+	default:
+		vals = append(vals, cc.Value)
+	}
+	defer func() {
+		if r := recover(); r != nil {
+			ok = false
+		}
+	}()
+	// values computed inside the loop from invariant operands: bind their terms
+	tmp := ms.st.clone()
+	for _, a := range vals {
+		if t, inv := ms.invariantVal(fn, a); inv {
+			switch a.(type) {
+			case *ssa.Const, *ssa.Global, *ssa.Function:
+			default:
+				tmp.vals[a] = t
+			}
+		} else {
+			// not fixed before the loop: a target that mentions it is not a point
+			tmp.vals[a] = "!poison"
+			delete(tmp.lvs, a)
+		}
+		if mi, isMI := a.(*ssa.MakeInterface); isMI {
+			if t, inv := ms.invariantVal(fn, mi.X); inv {
+				switch mi.X.(type) {
+				case *ssa.Const, *ssa.Global, *ssa.Function:
+				default:
+					tmp.vals[mi.X] = t
+				}
+			}
+		}
+	}
+	args := ms.fx.evalArgs(tmp, cc)
+	var sig *types.Signature
+	if tgt.fn != nil {
+		sig = tgt.fn.Signature
+	} else {
+		sig = cc.Signature()
+	}
+	env := ms.fx.contractEnv(tmp, tgt, sig, cc, args)
+	type pm struct {
+		name, sort string
+		pt         Term
+	}
+	var out []pm
+	addTargets := func(m Expr) {
+		switch x := m.(type) {
+		case *EField:
+			b := env.eval(x.X)
+			pt, _ := derefType(b.typ)
+			_, f := findField(pt.Underlying().(*types.Struct), x.Name)
+			out = append(out, pm{heapNameForField(pt, x.Name), arrOf(ms.fx.sortOf(f.Type())), b.t})
+		case *ECall:
+			switch x.Fn {
+			case "map":
+				mv := env.eval(x.Args[0])
+				ks, vs, _ := env.mapSorts(mv)
+				out = append(out, pm{mapInName(ks, vs), "(Array Int (Array " + ks + " Bool))", mv.t}, pm{mapValName(ks, vs), "(Array Int (Array " + ks + " " + vs + "))", mv.t}, pm{"MapLen", arrOf("Int"), mv.t})
+			case "mem":
+				sv := env.eval(x.Args[0])
+				es, _ := env.elemOf(sv.typ)
+				out = append(out, pm{"Mem." + sanitize(es), "(Array Int " + arrOf(es) + ")", "(sptr " + sv.t + ")"})
+			default:
+				g, isG := ms.fx.P.Specs.Ghosts[x.Fn]
+				if !isG {
+					panic("not point")
+				}
+				if len(g.Args) == 0 {
+					panic("not point")
+				}
+				out = append(out, pm{"ghost." + x.Fn, ms.fx.ghostSort(g), env.eval(x.Args[0]).t})
+			}
+		default:
+			panic("not point")
+		}
+	}
+	for _, m := range tgt.fc.Modifies {
+		addTargets(m)
+	}
+	for _, tr := range tgt.fc.Transfers {
+		addTargets(tr.Ghost)
+	}
+	for _, p := range out {
+		if strings.Contains(p.pt, "!poison") {
+			ms.addAt(p.name, p.sort, false, "")
+		} else {
+			ms.addAt(p.name, p.sort, false, p.pt)
+		}
+	}
+	return true
 }
 
 // contractMods adds the heap variables named by a contract's modifies clauses.
